@@ -750,7 +750,7 @@ func (g *Gen) execBuiltin(x *ssa.Call, b *ssa.Builtin, c *ssa.CallCommon, st *St
 		case KSlice:
 			t = fmt.Sprintf("(sl.%s %s)", b.Name(), a.T)
 		case KStr:
-			t = fmt.Sprintf("(str.len %s)", a.T)
+			t = fmt.Sprintf("(gstr.len %s)", a.T)
 		case KRef:
 			if mt, ok := c.Args[0].Type().Underlying().(*types.Map); ok {
 				dn, _ := g.mapNames(mt)
@@ -836,7 +836,7 @@ func (g *Gen) execAppend(x *ssa.Call, c *ssa.CallCommon, st *State) {
 	var n string // number of appended elements
 	fromStr := t.S.K == KStr
 	if fromStr {
-		n = fmt.Sprintf("(str.len %s)", t.T)
+		n = fmt.Sprintf("(gstr.len %s)", t.T)
 	} else {
 		n = fmt.Sprintf("(sl.len %s)", t.T)
 	}
@@ -897,7 +897,7 @@ func (g *Gen) execAppend(x *ssa.Call, c *ssa.CallCommon, st *State) {
 	g.assume("true", fmt.Sprintf("(forall ((a Int)) (! (=> (not (= a %s)) (= (select %s a) (select %s a))) :pattern ((select %s a))))", rarr, nh, h, nh))
 	var src string
 	if fromStr {
-		src = fmt.Sprintf("(str.at %s %s)", t.T, g.idxSub(g.idxSub("k", roff), slen))
+		src = fmt.Sprintf("(gstr.at %s %s)", t.T, g.idxSub(g.idxSub("k", roff), slen))
 	} else {
 		src = fmt.Sprintf("(select (select %s (sl.arr %s)) %s)", h, t.T, g.idxAdd(fmt.Sprintf("(sl.off %s)", t.T), g.idxSub(g.idxSub("k", roff), slen)))
 	}
@@ -916,7 +916,7 @@ func (g *Gen) execCopy(x *ssa.Call, c *ssa.CallCommon, st *State) {
 	var slen string
 	fromStr := s.S.K == KStr
 	if fromStr {
-		slen = fmt.Sprintf("(str.len %s)", s.T)
+		slen = fmt.Sprintf("(gstr.len %s)", s.T)
 	} else {
 		slen = fmt.Sprintf("(sl.len %s)", s.T)
 	}
@@ -950,7 +950,7 @@ func (g *Gen) execCopy(x *ssa.Call, c *ssa.CallCommon, st *State) {
 	g.assume("true", fmt.Sprintf("(forall ((a Int)) (! (=> (not (= a %s)) (= (select %s a) (select %s a))) :pattern ((select %s a))))", darr, nh, h, nh))
 	var src string
 	if fromStr {
-		src = fmt.Sprintf("(str.at %s %s)", s.T, g.idxSub("k", doff))
+		src = fmt.Sprintf("(gstr.at %s %s)", s.T, g.idxSub("k", doff))
 	} else {
 		src = fmt.Sprintf("(select (select %s (sl.arr %s)) %s)", h, s.T, g.idxAdd(fmt.Sprintf("(sl.off %s)", s.T), g.idxSub("k", doff)))
 	}
